@@ -77,6 +77,10 @@ func writeBig(sb *strings.Builder, s string, m Mode) {
 		writeFloat(sb, f, m)
 		return
 	}
+	if f, err := strconv.ParseFloat(s, 64); err != nil && math.IsInf(f, 0) {
+		writeFloat(sb, f, m) // overflow: same canon as a parser that returns ±Inf
+		return
+	}
 	if r, ok := new(big.Rat).SetString(s); ok && len(s) < 4000 {
 		sb.WriteString("n:R")
 		sb.WriteString(r.RatString())
